@@ -3,11 +3,15 @@
    Model: Model/CrashSteps.v (operations as step lists over store / committed database / pending transaction);
    lemmas: Proofs/CrashStepsProofs.v.  The Section variables [remote] (the connector's copy of a message) and [recovered]
    (which ids are recovered messages) are universally quantified in every statement.
-   Assumed, not proved (trusted base): SQLite's atomic commit (= the semantics of SCommit / cs_crash), a store call is
-   one step (a crash INSIDE store.Set — torn file — is outside the step model), the step lists are those of the code
-   (tied by the trace correspondence of harness/cmd/c07: Run/RunC07.v). *)
+   Assumed, not proved (trusted base): SQLite's atomic commit (= the semantics of SCommit / cs_crash), the step lists
+   are those of the code (tied by the trace correspondence of harness/cmd/c07: Run/RunC07.v).  A store call is one step
+   of the step model; a crash INSIDE store.Set (torn cache file) is covered by the file-level statements at the end
+   (Model/CrashSteps.v Section SetWrites, Proofs/CrashSetWrites.v): every torn file is rejected by Get — for the file
+   format of store/disk.go by C09's truncation theorem, under C09's assumptions about AES-GCM and LZ4
+   (code_assumptions) — and therefore is the step model's "no cache file" state. *)
 From Coq Require Import List NArith Bool.
 From Gluon Require Import Model.CrashSteps Proofs.CrashStepsProofs Gen.FactsStartup.
+From Gluon Require Import Model.StoreFrame Proofs.StoreCode Proofs.CrashSetWrites.
 Import ListNotations.
 Open Scope N_scope.
 
@@ -63,8 +67,8 @@ Theorem C07_source_orders : startup_purge_before_sweep = true /\ startup_rows_be
   session_end_rows_before_files = true /\ conn_delete_releases_remote_id = true /\
   commit_error_always_returned = true /\ conn_create_cleanup_keeps_error = true /\ recovery_move_marks_old_copy = true /\
   redownload_refills_served_bytes = true /\ recovered_import_writes_new_id = true /\ failed_init_keeps_database = true /\
-  chunk_loops_bind_their_chunk = true.
-Proof. exact (conj eq_refl (conj eq_refl (conj eq_refl (conj eq_refl (conj eq_refl (conj eq_refl (conj eq_refl (conj eq_refl (conj eq_refl (conj eq_refl eq_refl)))))))))). Qed.
+  chunk_loops_bind_their_chunk = true /\ store_set_truncates = true /\ store_get_decodes_from_eof_tracker = true.
+Proof. exact (conj eq_refl (conj eq_refl (conj eq_refl (conj eq_refl (conj eq_refl (conj eq_refl (conj eq_refl (conj eq_refl (conj eq_refl (conj eq_refl (conj eq_refl (conj eq_refl eq_refl)))))))))))). Qed.
 Print Assumptions C07_source_orders.
 
 (* chunking (xslices.Chunk): the chunks of a list, concatenated, are the list, and no chunk is longer than the chunk size *)
@@ -150,6 +154,75 @@ Proof.
 Qed.
 Print Assumptions C07_marked_listed_blocks_purge.
 
+(* ---- inside store.Set: the cache file is written by several write calls ---- *)
+(* The process dies after k write calls of Set(b) — [ps] is ANY cutting of the new file content into consecutive writes,
+   so the cut can be after the header, after the nonce, after any sealed block or inside one; [old] is whatever the file
+   contained before.  With the open flags and the decoder wiring FOUND IN THE SOURCE (store_set_truncates,
+   store_get_decodes_from_eof_tracker) and a decoder that reads back complete files and rejects every strict prefix, the
+   file is complete and reads back as b, or Get rejects it: the cache entry is absent, which is the state the step
+   model calls "SSet did not happen".  (Does not type-check when Set opens without O_TRUNC or Get does not watch the
+   reader it decodes.) *)
+Theorem C07_torn_set_is_rejected_or_complete :
+  forall (B Msg : Type) (enc : Msg -> list B) (strict lenient : list B -> option Msg),
+  (forall b, strict (enc b) = Some b) ->
+  (forall b m, (m < length (enc b))%nat -> strict (firstn m (enc b)) = None) ->
+  forall b (old : list B) ps k, concat ps = enc b ->
+  let f := cs_set_file store_set_truncates old ps k in
+  let get := cs_file_decoder store_get_decodes_from_eof_tracker strict lenient in
+  (f = enc b /\ cs_file_view get (Some f) = Some b)
+  \/ ((length f < length (enc b))%nat /\ cs_file_view get (Some f) = None).
+Proof. exact (@torn_set_view). Qed.
+Print Assumptions C07_torn_set_is_rejected_or_complete.
+
+(* the same for the file format of store/disk.go as modelled for C09 (c_write = Set's output with the constants read
+   from the source, c_read = Get): the two decoder hypotheses are C09's round trip and C09_truncated_is_error *)
+Theorem C07_torn_cache_file_is_rejected_or_complete :
+  forall key seal open compress dec, code_assumptions key seal open compress dec ->
+  forall lenient k n d (old : bytes) ps j, length n = code_nlen ->
+  concat ps = c_write key seal compress k n d ->
+  let f := cs_set_file store_set_truncates old ps j in
+  let get := cs_file_decoder store_get_decodes_from_eof_tracker (code_get key open dec k) lenient in
+  (f = c_write key seal compress k n d /\ cs_file_view get (Some f) = Some d)
+  \/ ((length f < length (c_write key seal compress k n d))%nat /\ cs_file_view get (Some f) = None).
+Proof. exact code_torn_set. Qed.
+Print Assumptions C07_torn_cache_file_is_rejected_or_complete.
+
+(* a cache entry Get rejects is, for a fetch, a missing cache file: unless the message is a recovered one or the
+   connector no longer has it, the fetch proceeds exactly as from the store without that file (download, refill) *)
+Theorem C07_rejected_file_is_missing_file : forall remote recovered served_form fact m id,
+  cs_store_get (m_store m) id = None ->
+  cs_fetch_refill remote recovered served_form fact m id
+  = cs_fetch_refill remote recovered served_form fact (mkM (cs_store_del (m_store m) id) (m_db m) (m_pend m)) id
+    \/ recovered id = true \/ remote id = None.
+Proof. exact fetch_sees_rejected_as_missing. Qed.
+Print Assumptions C07_rejected_file_is_missing_file.
+
+(* Set went through: the file IS the new content whatever it contained before — a longer file, a damaged file, a file
+   of another installation — (open flags FOUND IN THE SOURCE), and for the format of store/disk.go it reads back as
+   the new literal *)
+Theorem C07_set_replaces_previous_file : forall (B : Type) (old : list B) ps k, (length ps <= k)%nat ->
+  cs_set_file store_set_truncates old ps k = concat ps.
+Proof. exact (@set_complete_replaces). Qed.
+Print Assumptions C07_set_replaces_previous_file.
+
+Theorem C07_rewritten_cache_file_reads_back :
+  forall key seal open compress dec, code_assumptions key seal open compress dec ->
+  forall lenient k n d (old : bytes) ps j, length n = code_nlen ->
+  concat ps = c_write key seal compress k n d -> (length ps <= j)%nat ->
+  cs_set_file store_set_truncates old ps j = c_write key seal compress k n d
+  /\ cs_file_view (cs_file_decoder store_get_decodes_from_eof_tracker (code_get key open dec k) lenient)
+       (Some (cs_set_file store_set_truncates old ps j)) = Some d.
+Proof. exact code_complete_set. Qed.
+Print Assumptions C07_rewritten_cache_file_reads_back.
+
+(* without O_TRUNC the previous content beyond the new length stays: over a longer file the result is never the new
+   content *)
+Theorem C07_set_without_truncation_keeps_tail : forall (B : Type) (old : list B) ps k, (length ps <= k)%nat ->
+  cs_set_file false old ps k = concat ps ++ skipn (length (concat ps)) old
+  /\ ((length (concat ps) < length old)%nat -> cs_set_file false old ps k <> concat ps).
+Proof. exact (fun B old ps k H => conj (set_complete_keeps_tail old ps k H) (set_without_trunc_differs old ps k H)). Qed.
+Print Assumptions C07_set_without_truncation_keeps_tail.
+
 (* ---- non-vacuity: the preconditions are satisfiable, with batches ---- *)
 Definition ex_m : cs_m :=
   mkM [(1, [10; 11]); (2, [12]); (9, [99])]
@@ -182,3 +255,12 @@ Example C07_ex_crash :
   map fst (m_store (cs_recover (cs_crash_after 5 (cs_steps op ex_m) ex_m))) = [1; 2] /\
   db_msgs (m_db (cs_recover (cs_crash_after 5 (cs_steps op ex_m) ex_m))) = [(1, false); (2, false)].
 Proof. vm_compute. repeat split. discriminate. Qed.
+
+(* Set of a 3-byte content in two write calls over a 5-byte file: with O_TRUNC the file is [1], then [1;2;3]; without it
+   the old tail shows through *)
+Example C07_ex_set_writes :
+  cs_set_file true [9; 9; 9; 9; 9] [[1]; [2; 3]] 1 = [1] /\
+  cs_set_file true [9; 9; 9; 9; 9] [[1]; [2; 3]] 2 = [1; 2; 3] /\
+  cs_set_file false [9; 9; 9; 9; 9] [[1]; [2; 3]] 1 = [1; 9; 9; 9; 9] /\
+  cs_set_file false [9; 9; 9; 9; 9] [[1]; [2; 3]] 2 = [1; 2; 3; 9; 9].
+Proof. vm_compute. repeat split. Qed.
